@@ -122,7 +122,7 @@ def standin_estimates(tier, seed):
     return dict(evaluations=evals, distinct_nontrivial=len(distinct),
                 rule="one evaluation = one estimate() call (3 individuals, unsorted / repeated / extrapolated ages) compared with a "
                      "numpy implementation of the documented formula; distinct = (model kind, hyper-parameters, repetition)",
-                samples=samples, violations=violations[:3],
+                samples=samples, violations=violations[:60],
                 bound=dict(space="5 fitted model kinds x seeded individual parameters x age lists", repetitions=n_rep,
                            exhaustive=False, seed=seed))
 
